@@ -218,7 +218,7 @@ fn judge<E1: std::fmt::Display, E2: std::fmt::Display>(out: &mut Outcome, site: 
         Ok(Ok(y)) => {
             out.tag("value-ok");
             match img {
-                Ok(Ok(t)) => { if !mem_tol(&t, &y) { let cls = format!("{}{}", result_class(&y), if cls.ends_with("/huge") { "/huge" } else { "" }); out.fail(&format!("C06/{site}/unsound-image/{cls}"), format!("{what} = {y} but the propagated range of the arguments' type {set} is {t}, which does not contain it")); } }
+                Ok(Ok(t)) => { if !mem_tol(&t, &y) { let cls = format!("{}{}", result_class(&y), if cls.ends_with("/huge") || crate::s_dtype::vclass(&y) == "huge" { "/huge" } else { "" }); out.fail(&format!("C06/{site}/unsound-image/{cls}"), format!("{what} = {y} but the propagated range of the arguments' type {set} is {t}, which does not contain it")); } }
                 Ok(Err(e)) => out.fail(&format!("C06/{site}/image-fails/{}", result_class(&y)), format!("{what} = {y} but range propagation on {set} fails: {e}")),
                 Err(_) => {}
             }
